@@ -46,8 +46,11 @@ type AsyncResult struct {
 
 // RunAsyncCase generates and executes one case of the asynchronous / adversarial explorer.
 func RunAsyncCase(rng *rand.Rand) *AsyncResult {
-	if rng.Intn(7) == 0 {
+	switch rng.Intn(14) {
+	case 0, 1:
 		return RunLockCase(rng)
+	case 2:
+		return RunPartialCommitCase(rng)
 	}
 	ns := []int{3, 4, 4, 4, 5, 6, 7, 7}
 	n := ns[rng.Intn(len(ns))]
